@@ -19,7 +19,7 @@ PRED_SIG = {
     "P01": ("GHHV", 0),
     "P07": ("TTT", 0),
     "P06": ("GHTT", 0), "P06S": ("T", 0), "P04": ("GHT", 0), "P05": ("GHTV", 0), "J05": ("GHTV", 0), "P09": ("GHTV", 0), "P02": ("T", 0), "P03": ("GT", 0),
-    "W08": ("", 0), "P15": ("", 0), "P17": ("", 0), "P16": ("", 0), "P13": ("", 0), "P11": ("GHTV", 0), "P13V": ("", 0), "P17D": ("", 0), "P18": ("GGTTUE", 0), "P18D": ("GGTTUE", 0), "P18F": ("G", 0),
+    "W08": ("", 0), "P15": ("", 0), "P17": ("", 0), "P16": ("", 0), "P13": ("", 0), "P11": ("GHTV", 0), "P12": ("GHTV", 0), "P13V": ("", 0), "P17D": ("", 0), "P18": ("GGTTUE", 0), "P18D": ("GGTTUE", 0), "P18F": ("G", 0),
 }
 for k, v in PRED_SIG.items(): corr.OPSIG[k] = v
 
@@ -634,6 +634,117 @@ PROPS["C11"] = dict(
     assumptions=["model = scalar-generic Gallina mirror of impl/bundle/* for an ARBITRARY list of groups (coq/Bundle.v: compute_indices as the template recursion, element views, pack-expansion loops writing blocks at the table offsets); tied to /repo by exact comparison over the rational scalar of every Bundle operation on layouts chosen so that Dim, DoF, RepSize, transform size and algebra size differ at every position",
                  "the layouts are compile-time instantiations: a fixed set (quick 3, thorough 7); the theorems are for every layout",
                  "predicate P11 compares every Bundle operation with the element operations applied to standalone copies and placed at offsets recomputed in the harness, outputs pre-filled with sentinels (exact zeros must be written), exactly over the rational scalar and bit-for-bit in double"],
+)
+
+
+P12_PAIRS = ["d inverse", "d log", "d exp", "d compose wrt X", "d compose wrt Y", "d between wrt X", "d between wrt Y", "d rplus wrt X", "d rplus wrt t", "d lplus wrt X", "d lplus wrt t",
+             "d rminus wrt Y", "d rminus wrt X", "d lminus wrt Y", "d lminus wrt X", "d act wrt X", "d act wrt p",
+             "primal compose", "primal log", "primal exp", "primal rminus", "primal rplus", "primal rjac", "primal adj(inverse)",
+             "LocalParameterization functor = X (+) d", "Manifold::Plus = X (+) d", "Manifold::Minus = Y (-) X", "Constraint functor residual", "Objective functor residual"]
+C12_OPS = ["Inverse", "Log", "Compose", "Act", "Adj", "Rplus", "Lplus", "Rminus", "Lminus", "Between", "Transform", "Exp", "Hat", "Rjac", "Ljac", "Rjacinv", "Ljacinv", "SmallAdj", "TPlus", "Bracket", "Inner"]
+def coarsen(g, gn, c):
+    """replace the rotation parts of the arguments of a predicate case by generic ones (angles O(0.1..3), never in a small-angle or
+    cancellation band): elements, relative rotation and tangent rotation"""
+    import math
+    gd0 = corr.group(gn); sig = corr.OPSIG[c["op"]][0]
+    def coarse(E):
+        out = []; i = 0
+        for kind, n in gd0.eparts:
+            part = E[i:i + n]; i += n
+            out += part if kind == "lin" else (g.unit2(g.r.choice(["id", "quarter", "generic", "neg_generic"])) if kind == "rot2" else g.unit4(g.r.choice(["id", "generic_pos", "generic_neg", "axis"])))
+        return out
+    args = list(c["args"]); X = None
+    for i, (k, a) in enumerate(zip(sig, args)):
+        if k == "G": X = coarse(a); args[i] = X
+        elif k == "H": args[i] = compose_py(gd0, X, coarse(a))
+        elif k == "T":
+            out = []; j = 0
+            for kind, n in gd0.tparts:
+                part = a[j:j + n]; j += n
+                if kind != "lin":
+                    th2 = float(sum(x * x for x in part))
+                    if 0 < th2 and float(EPS_D) / 4 <= th2 < 1e-3:
+                        th = g.angle("generic"); part = [th] if kind == "ang1" else g.vec3_norm(th)
+                out += part
+            args[i] = out
+    d = dict(c); d["args"] = args; return d
+
+def gen_p12(g, gn, exact=False):
+    # over the exact rationals the oracle's transcendental values are rounded to ~2^-44: in the cancellation band just above the
+    # small-angle switch-over that rounding is amplified, so the exact run keeps to the Taylor branches and to generic angles
+    c = gen_smooth("P12", kmax=4, strata=("zero", "tiny", "below_thr", "generic") if exact else ("zero", "tiny", "below_thr", "above_thr", "small", "generic"))(g, gn)
+    if exact: c = coarsen(g, gn, c)
+    # elements are constants (zero dual parts); the dual parts of the tangent and of the point are the direction of differentiation
+    gd = corr.group(gn)
+    d = dict(c); d["flt"] = 2
+    d["args"] = [list(c["args"][0]) + [Fr(0)] * gd.rep, list(c["args"][1]) + [Fr(0)] * gd.rep,
+                 list(c["args"][2]) + [Fr(g.r.randint(-9, 9), g.r.choice([1, 2, 4])) for _ in range(gd.dof)],
+                 list(c["args"][3]) + [Fr(g.r.randint(-9, 9), g.r.choice([1, 2, 4])) for _ in range(len(c["args"][3]))]]
+    return d
+
+def c12_dual(pid, P, tier, seed, log):
+    """the model's dual-number instance against manif over a dual-number scalar, exactly (primal and dual parts), on every
+    operation; and predicate P12 over dual rationals (tolerance for the oracle's rounded square roots / angles) and dual doubles"""
+    g = mkgen(pid, seed, 12); n = 4 if tier != "thorough" else 40
+    cases = []
+    for gn in P["groups"]:
+        for op in C12_OPS:
+            if not corr.op_applicable(op, gn): continue
+            for k in range(n):
+                c = corr.gen_case(g, gn, op)
+                cases.append(corr.dualize(g, c, zero=(k % 4 == 3)))
+    res, be = corr.run_cases(cases, scalar="D")
+    summ, dis = corr.summarize(res)
+    raw = [("build", dict(binary=n_), "harness %s does not build against the current tree: %s" % (n_, lg[-400:]), dict(binary=n_, log=lg[-3000:]), False) for n_, lg in be.items()]
+    seen = set()
+    for d_ in dis:
+        c = d_["case"]; k = (c["group"], c["op"])
+        if k in seen: continue
+        seen.add(k)
+        raw.append(("corr", dict(group=c["group"], op=c["op"], scalar="D", _args=c["args"]),
+                    "%s.%s over dual numbers: implementation and the model's dual instance differ (impl %s / model %s)" % (c["group"], c["op"], d_["impl"][:80], d_["model"][:80]),
+                    dict(kind="correspondence", names="run_op at DS (QS orc) vs manif over vq::Dual<ExQ>", scalar="D", case=corr.case_json(c), impl=d_["impl"][:3000], model=d_["model"][:3000]), True))
+    # P12
+    npred = 6 if tier != "thorough" else 60
+    nev = 0
+    for sc, tol in (("D", 1e-6), ("E", 1e-6)):
+        pcs = [gen_p12(g, gn, exact=(sc == "D")) for gn in P["groups"] for _ in range(npred)]
+        r2, be2 = corr.run_cases(pcs, scalar=sc, model=False)
+        for n_, lg in be2.items():
+            raw.append(("build", dict(binary=n_), "harness %s does not build against the current tree: %s" % (n_, lg[-400:]), dict(binary=n_, log=lg[-3000:]), False))
+        for r in r2:
+            if r["impl"] in ("build_failed", "oracle_conflict"): continue
+            c = r["case"]; outs = vcheck.parse_outs(r["impl"]); nev += 1
+            if outs is None:
+                if "div0" in r["impl"]: continue        # a square root differentiated at zero (e.g. the objective residual at the target): no derivative exists there
+                raw.append(("pred", dict(group=c["group"], pred="P12", scalar=sc, pair="exception", _args=c["args"]), "%s P12 over %s raised %s" % (c["group"], sc, r["impl"][:80]),
+                            dict(kind="predicate", scalar=sc, case=corr.case_json(c), result=r["impl"][:300]), True)); continue
+            # the harness prints (primal vector, dual vector) per output: the compared quantities are the primal vectors (outs[4k], outs[4k+2])
+            prim = outs[0::2]
+            s0 = float((1 + maxabs(c)) ** 2)
+            for k in range(len(prim) // 2):
+                a, b = prim[2 * k], prim[2 * k + 1]
+                # primal parts (pairs 17..23): the base-scalar result up to rounding (Eigen picks vectorised kernels for double only)
+                bad = vcheck.pair_failures([a, b], False, tol=(1e-12 if 17 <= k <= 23 else tol), scale_fn=lambda k_, x, y, s: max(s, s0))
+                for _, why in bad:
+                    nm = P12_PAIRS[k] if k < len(P12_PAIRS) else "pair%d" % k
+                    raw.append(("pred", dict(group=c["group"], pred="P12", scalar=sc, pair=nm, _args=c["args"], **rot_angles(dict(c, op="P05", args=[x[:len(x) // 2] for x in c["args"]]))),
+                                "%s: %s fails over %s: %s" % (c["group"], nm, {"D": "dual rationals", "E": "dual doubles"}[sc], why),
+                                dict(kind="predicate", scalar=sc, pair=nm, case=corr.case_json(c), lhs=[fs(x) for x in a][:60], rhs=[fs(x) for x in b][:60], why=why), True))
+    log("dual numbers: %d exact cases (%d disagreements), %d predicate evaluations, %d failures" % (len(cases), len(dis), nev, len(raw)))
+    return raw, dict(dual_exact_cases=len(cases), dual_exact_disagreements=len(dis), dual_predicate_evaluations=nev)
+
+PROPS["C12"] = dict(
+    vfiles=["Properties_C12.v"], level="proof",
+    groups=BASE_GROUPS,
+    corr_ops=["Exp", "Log", "Compose"],
+    preds=[dict(op="J05", pairs=J05_PAIRS, scalars=(), xscalars=("f", "d"), xtol=2e-3, dscale=lambda c: (1 + maxabs(c)) ** 2,
+                gen=lambda g, gn: coarsen(g, gn, gen_smooth("J05", kmax=3, strata=("generic",))(g, gn)))],
+    extra=[c12_dual],
+    n=dict(quick=(8, 10), thorough=(100, 100)),
+    assumptions=["model at the dual-number instance DS (QS orc) = the scalar-generic Gallina model with every scalar operation lifted (coq/Dual.v); tied to /repo by exact comparison, primal AND dual parts, with manif's own templates instantiated over a dual-number scalar on the exact rationals (harness/dual.h: the ceres::Jet pattern, specialising only Constants and is_ad as ceres/constants.h does; ceres and autodiff themselves are not installed)",
+                 "the ceres functors are header-only templates over raw pointers: they are instantiated directly (LieGroup over double / rationals, T = the dual scalar)",
+                 "single precision: the float instantiation's Jacobians against the double ones on generic inputs (tolerance 2e-3 relative)"],
 )
 
 # ------------------------------------------------------------------ generic engine
